@@ -278,6 +278,9 @@ func (f *File) Canon(n ast.Node) string {
 				names[lit] = fmt.Sprintf("v%d", len(names)+1)
 			}
 			out = append(out, names[lit])
+		case tok == token.IDENT && placeholder.MatchString(lit):
+			// a real identifier that looks like a placeholder (a global or a field named v3) must not be confused with one
+			out = append(out, "$"+lit)
 		case lit != "":
 			out = append(out, lit)
 		default:
@@ -290,6 +293,8 @@ func (f *File) Canon(n ast.Node) string {
 	s = regexp.MustCompile(`var (v\d+) = `).ReplaceAllString(s, "$1 := ")
 	return s
 }
+
+var placeholder = regexp.MustCompile(`^v\d+$`)
 
 // CanonText canonicalises a source fragment given as text (a function declaration or a statement list wrapped by the
 // caller in `func _() { … }`), for writing expectations next to the extractor.
